@@ -280,7 +280,7 @@ def cvc5_check(solver, timeout_ms):
 
 
 # ------------------------------------------------------------------------------------------------ main entry
-def verify_function(spec, key, cfg, tier, seed, root=None, sid=None, differential=True):
+def verify_function(spec, key, cfg, tier, seed, root=None, sid=None, differential=True, contract=None):
     t_all = time.time()
     sid = sid or spec.id
     base = dict(prop=spec.prop, config=str(cfg), function=key, engine="E1")
@@ -296,7 +296,7 @@ def verify_function(spec, key, cfg, tier, seed, root=None, sid=None, differentia
     except Exception as e:
         R("source", verdict="undecided", backend="-", detail=f"outside E1: cannot load {key}: {type(e).__name__}: {e}")
         return results
-    C = CONTRACTS.get(key)
+    C = contract or CONTRACTS.get(key)
     if C is None:
         R("contract", verdict="error", backend="-", detail="no contract registered")
         return results
@@ -366,9 +366,8 @@ def verify_function(spec, key, cfg, tier, seed, root=None, sid=None, differentia
         for inp in small_inputs(C, src, cfg, limit=5000):
             a = NS(**inp)
             if C.requires is None or _truthy(C.requires(a)):
-                if not any(_truthy(c(a)) for _e, c in C.raises):
-                    cov = inp
-                    break
+                cov = inp
+                break
     except Exception as e:
         cov = None
     R("cover.requires", backend="native", kind="proof", verdict="discharged" if cov is not None else "error", wall_s=round(time.time() - t0, 3), detail=(f"precondition satisfied by {wit(cov)}" if cov is not None else "vacuity: no small input satisfies the precondition"), source=pin)
@@ -385,6 +384,10 @@ def verify_function(spec, key, cfg, tier, seed, root=None, sid=None, differentia
         if not vcs:
             R("vcgen", verdict="error", backend="-", detail="vacuous: no verification condition generated", source=pin)
         axioms = [] if bv else T.z3_axioms(C.theory)
+        if C.extra is not None and not bv:
+            ext = C.extra(cfg, src.module)
+            axioms = axioms + [f for _l, f in ext]
+            results[0].detail += " | per-configuration hypotheses: " + "; ".join(l for l, _f in ext)
         ivars = input_vars(inputs)
         for vc in vcs:
             r0 = time.time()
